@@ -295,6 +295,11 @@ func (s *Server) serveOne(ctx context.Context, r io.Reader, w io.Writer, shmConn
 			}
 			s.logIPCWriteErr("error-response", req.Method,
 				writeErrorResponse(w, errSchema, pverr, s.serverID, req.RequestID, s.debugErrors))
+			// A stream call is followed by the client's input stream; drain
+			// it so the refusal leaves the connection in frame.
+			if methodTypeString(info.Type) == DispatchMethodStream {
+				drainInputStream(r)
+			}
 			return nil
 		}
 	}
